@@ -411,9 +411,11 @@ def gen_case(rng, idx, max_periods=4):
         if rng.random() < 0.03:
             push({"op": "enable", "dash": dict(dash)})
         t = rng.choice([0, 0, 0, 0, 5, 50, 700])
-        for i in range(rng.randint(2, 14)):
+        for i in range(rng.randint(2, 16)):
             focus = None
             st = book.status
+            if i > 0 and st[0] == "ended" and rng.random() < 0.5:
+                break
             if st[0] in ("entered", "running"):
                 focus = st[1]
             if i > 0:
@@ -641,12 +643,12 @@ def describe(c, v, ev):
     hist = []
     for o in c["ops"]:
         if o["op"] == "enable":
-            hist.append("on_enable[%s]" % ",".join("%s=%s" % (k, "absent" if x is None else "%gs" % (x / T)) for k, x in sorted(o["dash"].items())))
+            hist.append("on_enable[%s]" % ",".join("%s=%s" % (k, "absent" if x is None else "%rs" % (x / T)) for k, x in sorted(o["dash"].items())))
         elif o["op"] == "iter":
             r = ""
             if o["rules"]:
                 r = "{" + ";".join("%s:%s" % (n, "+".join("done" if a[0] == "done" else "next(%s)" % a[1] for a in acts)) for (n, _, acts) in o["rules"]) + "}"
-            hist.append("on_iteration(%g)%s" % (o["tm"] / T, r))
+            hist.append("on_iteration(%r)%s" % (o["tm"] / T, r))
         else:
             hist.append("on_disable")
     return ("clause %s fails at operation %d: states %s first=%s; history %s; expected %s, implementation did %s"
@@ -852,7 +854,7 @@ def replay(ctx, obj):
         ev, prob = run_impl(mod, c["spec"], c["ops"], 0)
         for o, e in zip(c["ops"], ev):
             if o["op"] == "iter":
-                print("on_iteration(tm=%g s) rules=%r -> %r" % (o["tm"] / T, o["rules"], e))
+                print("on_iteration(tm=%r s = %d ticks) rules=%r -> %r" % (o["tm"] / T, o["tm"], o["rules"], e))
             elif o["op"] == "enable":
                 print("on_enable() dashboard=%r -> %r" % (o["dash"], e))
             else:
